@@ -1072,9 +1072,6 @@ impl World {
             _ => {}
         }
         let node = cw.node_ctx.node.clone();
-        if std::env::var("VERIF_DEBUG_BLK").is_ok() {
-            std::panic::set_hook(Box::new(|info| eprintln!("PANIC at {:?}", info.location())));
-        }
         let r = catch_unwind(AssertUnwindSafe(|| {
             let mut tracker = node.get_tracker();
             let block = make_block(tracker.tip().0, txs);
@@ -1756,7 +1753,7 @@ pub fn run_case(ops: &[String]) -> CaseOut {
         if std::env::var("VERIF_DEBUG_BLK").is_ok() && (op.starts_with("blk") || op.starts_with("unblk")) {
             let want: Vec<&str> = op.split_whitespace().collect();
             let exp = format!("ok {}", want[want.len() - 3..].join(" "));
-            if line != exp {
+            if line != exp && line != "nochan" && line != "bad-op" && line != "dead" {
                 eprintln!("BLK-MISMATCH at {}: got `{}`\n{}", i, line, ops[..=i].join("\n"));
             }
         }
